@@ -79,6 +79,12 @@ class CMSSuite(Suite):
                 seq.append(("str", h))
             else:
                 seq.append(("chkall", h))
+        if kind in ("hh", "st") and rng.random() < 0.5:
+            # clear() in the middle, then the table has to fill up again exactly like a fresh one
+            mid = len(seq) // 2
+            seq.insert(mid, ("clear", 1))
+            for _ in range(rng.randint(5, 15)):
+                seq.append(("add", 1, rng.choice(universe), rng.choice([1, 1, 2, 3])))
         seq.append(("chkall", 1))
         seq[0] = seq[0] + (tuple(universe),)
         return seq
@@ -178,7 +184,9 @@ class CMSSuite(Suite):
                     if type(new) is not cls:
                         real_kind = {"CountMinSketch": "min", "CountMeanSketch": "mean", "CountMeanMinSketch": "meanmin"}.get(type(new).__name__, kind)
                         D["load:class-mismatch"] += 1
-                    objs[r] = (real_kind, new, sname, extra)
+                    # later lines are addressed to what the caller asked for (the receiver's class): a loader that
+                    # returns another class is a C05 matter and shows in the `qtype` facet of this line
+                    objs[r] = (kind, new, sname, extra)
                     d = self.obs(real_kind, new, "ok")
                     d["qtype"] = new.query_type
                     out.append((line + kind_args(kind, extra, sname, new), d))
